@@ -126,6 +126,23 @@ def forced_release(rng):
     return "net 2 1 " + " ; ".join(ops)
 
 
+def send_after_rejoin(rng):
+    """messages go to node IDs, not to addresses: A sends to B's ID, B releases, C joins (and may take B's old
+    address), B re-joins, A sends to B's ID again - the second message must reach B wherever it is now"""
+    ids = rng.sample(range(1, 256), 3)
+    a, b, c = "x0", "x1", "x2"
+    ops = ["new m master 0 0"] + [f"new x{i} mesh {i + 1} {nid}" for i, nid in enumerate(ids)]
+    ops += [f"{a} renew 1500", f"m lookup_address {ids[0]}", f"{b} renew 1500", f"m lookup_address {ids[1]}"]
+    for k in range(rng.randint(1, 3)):
+        ops += [f"{a} send {ids[1]} {rng.choice([1, 5, 64])} {rbytes(rng, rng.choice([1, 3, 24]))}", "m update", f"{b} read", f"{b} read"]
+    ops += [f"{b} release", "m update", f"m lookup_address {ids[1]}", f"{c} renew 1500", f"m lookup_address {ids[2]}",
+            f"{b} renew 1500", f"m lookup_address {ids[1]}"]
+    for k in range(rng.randint(1, 2)):
+        ops += [f"{a} send {ids[1]} {rng.choice([1, 5, 64])} {rbytes(rng, rng.choice([1, 3, 24]))}", "m update", f"{b} read", f"{b} read",
+                f"{c} read"]
+    return "net 4 1 " + " ; ".join(ops)
+
+
 TIMED_LOOKUP_HEAD = "net 2 1 new m master 0 0 ; new x mesh 1 7 ; x renew 1500 ; env faults D"
 
 
@@ -209,6 +226,7 @@ class C17(PropCheck):
             cs.append((scripted_joiner(rng), "joiner-vs-scripted-responses"))
         for _ in range(6 if tier == "quick" else 20):
             cs.append((self._concrete(forced_release(rng)), "forced-release"))
+        cs += [(self._concrete(send_after_rejoin(rng)), "send-after-rejoin") for _ in range(4 if tier == "quick" else 40)]
         cs += [(timed_lookup(rng), "timed-lookup") for _ in range(8 if tier == "quick" else 120)]
         cs += [(timed_lookup(rng, odd), "lookup-answer-sizes") for odd in range(4) for _ in range(1 if tier == "quick" else 10)]
         # a master-less mesh object with ID 0 counts as connected, without any traffic (RF24MeshNoMaster.check_connection)
